@@ -154,7 +154,7 @@ Section Proofs.
     pose proof HR as HR0. destruct HR as [Hhn Hvh Hsg Hmp Hst Hrv Hcur Hnxt].
     assert (Hsigned : p_signed g = false).
     { destruct (p_signed g) eqn:E; [rewrite Hsg in Hc by reflexivity; discriminate|reflexivity]. }
-    destruct o as [sync|valid need_cs sync|sec np chain_ok commit sync| | |nl nr sc| | ].
+    destruct o as [sync|valid need_cs sync|sec np chain_ok commit sync| | |nl nr sc| | | ].
     - (* OCommit *)
       destruct (can_generate_new_commitment point s).
       + apply (maybe_restore_sim sync _ g g []); [exact Hc|reflexivity|].
@@ -266,6 +266,9 @@ Section Proofs.
       eapply close_sim; [exact Hg1|exact (R_vh _ _ HRs1)|exact (R_hn _ _ HRs1)].
     - (* OForceClose *)
       apply (close_sim s g [] g); [reflexivity|exact Hvh|exact Hhn].
+    - (* OChainClose *)
+      cbn [fst snd chk_all]. exists g. split; [reflexivity|].
+      constructor; sf; intros; try assumption; try discriminate; try reflexivity.
     - (* OResign *)
       exists g. split; [reflexivity|exact HR0].
   Qed.
